@@ -240,6 +240,9 @@ func registerFSTable(in *Interp) {
 			p.end("unsupported", "file-system query without a scenario (vxFSEntry/vxFSDefault)")
 		}
 		q := stripTrailingSlash(p, arg)
+		if p.branch(p.bvCmp("=", q.n, mkInt(0))) {
+			return 0, concStr(".") // filepath.EvalSymlinks("") is "."
+		}
 		for _, e := range t.entries {
 			if p.branch(p.strEq(q, e.path)) {
 				return e.kind, e.target
